@@ -273,6 +273,9 @@ def py_floordiv(it, a, b):
 def binop(it, op, a, b):
     a = it.force(a) if isinstance(a, SIte) else a
     b = it.force(b) if isinstance(b, SIte) else b
+    import pathlib as _pl
+    if op == "Div" and isinstance(a, _pl.PurePath) and getattr(it, "path_div", None) is not None and isinstance(b, (str, SStr, SVal)) and str(b) != "fiprofiles":
+        return it.path_div(a, b)
     if not is_sym(a) and not is_sym(b):
         if deep_concrete(a) and deep_concrete(b):
             try:
@@ -913,11 +916,35 @@ class IdentitySet(Abstract):
             if not any(x is y for y in self.items):
                 self.items.append(x)
 
+    def uncertain(self):
+        syms = [x for x in self.items if is_sym(x) and not isinstance(x, SObj)]
+        return len(syms) >= 2 or (len(syms) == 1 and len(self.items) > 1)
+
     def p_iter(self, it):
+        if self.uncertain():
+            raise Unsupported("set of several symbolic values (size depends on their equality)")
         return list(self.items)
 
     def p_len(self, it):
+        if self.uncertain():
+            raise Unsupported("set of several symbolic values (size depends on their equality)")
         return len(self.items)
+
+    def p_getattr(self, it, name):
+        if name == "pop":
+            def pop():
+                if self.uncertain():
+                    raise Unsupported("set of several symbolic values")
+                if not self.items:
+                    raise Raised(KeyError, "pop from an empty set")
+                return self.items.pop()
+            return pop
+        if name == "add":
+            def add(x):
+                if not any(x is y for y in self.items):
+                    self.items.append(x)
+            return add
+        raise Unsupported(f"set.{name}")
 
     def p_contains(self, it, item):
         return any(item is y for y in self.items)
